@@ -59,6 +59,8 @@ func newWorld(kind string, f []string) world {
 		return newStack(f)
 	case "cb":
 		return newCb(f)
+	case "own":
+		return newOwn(f)
 	}
 
 	return nil
@@ -206,7 +208,7 @@ func runCase(r *hx.Run, sub uint64, ops []string) {
 	}
 }
 
-var kindsAll = []string{"shrink", "rmap", "gh", "pq", "tpq", "queue", "ring", "stack"}
+var kindsAll = []string{"shrink", "rmap", "gh", "pq", "tpq", "queue", "ring", "stack", "own"}
 
 func gen(kind string, rng *hx.Rng, n int) []string {
 	switch kind {
@@ -224,6 +226,8 @@ func gen(kind string, rng *hx.Rng, n int) []string {
 		return genQueue(rng, n)
 	case "ring":
 		return genRing(rng, n)
+	case "own":
+		return genOwn(rng, n)
 	default:
 		return genStack(rng, n)
 	}
@@ -234,7 +238,7 @@ func main() {
 	r.MaxSamples = 8
 	r.Rule = "per container random histories of 40 requests (keys 0..5, capacities 1..4, shrink ratio in {0,1/2,1,3/2,2,3} x count 0..3, asc/desc); " +
 		"non-trivial = shrink: the map was rebuilt by a threshold at least once and then read; rmap: a non-last key was deleted and a random pick answered; " +
-		"gh/pq: a live handle removed an element (gh: not the root, not the last) and 3 pops followed; tpq: 3 pushes then 3 elements popped; queue: more accepted offers than the capacity; ring: ToSlice read after wrapping; stack: pop after push after pop; distinct by sha256 of the request lines"
+		"own: a caller wrote into a slice returned by Keys() and the map was changed afterwards; gh/pq: a live handle removed an element (gh: not the root, not the last) and 3 pops followed; tpq: 3 pushes then 3 elements popped; queue: more accepted offers than the capacity; ring: ToSlice read after wrapping; stack: pop after push after pop; distinct by sha256 of the request lines"
 	if lines := r.ReplayLines(); lines != nil {
 		runCase(r, 0, lines)
 		r.Sample(r.CaseLines())
@@ -336,6 +340,9 @@ var corpus = [][]string{
 	tpqCase("desc", "push 0 #8 0", "push 1 @2 1", "push 2 #0 2", "push 3 #10 3", "push 4 #9 0", "push 5 #1 1", "push 6 #11 2", "push 7 #2 3", "peek", "popuntil #8 2", "pop", "pop", "popuntil #0 1", "popall"),
 	tpqCase("asc", "push 0 #3 0", "push 1 #4 1", "push 2 #5 2", "push 3 #6 3", "push 4 #7 0", "pop", "popuntil #6 1", "popall"),
 	tpqCase("default", "push 0 #3 0", "push 1 #4 1", "push 2 #5 2", "push 3 #6 3", "push 4 #7 0", "pop", "popuntil #4 1", "popall"),
+	// memory level: the caller keeps and edits what Keys() gave it (the demos of seeded r6-2 first)
+	{"own new", "own set 1", "own set 2", "own set 3", "own set 4", "own keys", "own del 1", "own set 5", "own keys", "own write 0 0 9", "own write 1 3 7", "own set 1", "own del 4"},
+	{"own new", "own set 1", "own set 2", "own set 3", "own keys", "own write 0 0 3", "own write 0 2 1", "own del 3", "own keys", "own set 4", "own del 1"},
 	{"stack new simple", "stack pop", "stack push 1", "stack push 2", "stack peek", "stack pop", "stack size", "stack clear", "stack isempty", "stack pop", "stack push 3", "stack pop"},
 	{"stack new safe", "stack pop", "stack push 1", "stack push 2", "stack peek", "stack pop", "stack size", "stack clear", "stack isempty", "stack pop", "stack push 3", "stack pop"},
 }
